@@ -183,6 +183,11 @@ type WaitOutcome struct {
 	Op       string
 	Ok       bool
 	WaitedNs int64
+	// BudgetStop: a search limited only by depth/nodes (no time control) was
+	// still running when the fake-time budget of the cost model ran out; the
+	// GUI stopped it and the result arrived promptly. The property gives no
+	// time bound for such a search, so this is not a termination failure.
+	BudgetStop bool
 }
 
 // LoopPanic records a protocol loop panic.
@@ -206,6 +211,7 @@ func RunUciScript(sc *Scenario) *UciRunOut {
 	}
 
 	wantBest, wantReady := 0, 0
+	lastGo := ""
 	hasDamaged := false
 	for _, st := range sc.Steps {
 		if st.Op == "damaged" {
@@ -257,6 +263,7 @@ func RunUciScript(sc *Scenario) *UciRunOut {
 				// relative accounting: a damaged go may or may not have been answered
 				b, _, _ := us.Counts()
 				wantBest = b + 1
+				lastGo = st.Line
 			}
 			if len(tok) > 0 && tok[0] == "isready" && st.Op == "send" {
 				_, r, _ := us.Counts()
@@ -346,7 +353,24 @@ func RunUciScript(sc *Scenario) *UciRunOut {
 				}
 				sim.ActorSleep(offGUI, step)
 			}
-			out.Waits = append(out.Waits, WaitOutcome{Step: i, Op: st.Op, Ok: ok, WaitedNs: sim.Now() - start})
+			wo := WaitOutcome{Step: i, Op: st.Op, Ok: ok, WaitedNs: sim.Now() - start}
+			if st.Op == "wait_best" && !ok && !simExhausted(sim) {
+				if l, pok := parseGoLine(lastGo); pok && l.MoveTime == 0 && l.WTime == 0 && l.BTime == 0 && !l.Infinite && !l.Ponder && (l.Depth > 0 || l.Nodes > 0 || l.Mate > 0) {
+					if send(i, "stop") {
+						settle()
+						for k := 0; k < 400; k++ {
+							if b, _, _ := us.Counts(); b >= wantBest {
+								wo.BudgetStop = true
+								out.Probes["budget_stop_of_depth_or_nodes_search"]++
+								break
+							}
+							sim.ActorSleep(offGUI, 5_000_000)
+						}
+					}
+				}
+			}
+			ok = ok || wo.BudgetStop
+			out.Waits = append(out.Waits, wo)
 			if ok && st.Op == "wait_best" && us.Plain && gp.valid && !hasDamaged {
 				// the position handed to the search is left unchanged
 				out.PosChecks = append(out.PosChecks, PosCheck{Step: i, Line: "(after search)", Got: us.PositionFen(), Want: []string{gp.pos.Fen()}, AfterSearch: true})
